@@ -405,8 +405,52 @@ func shippedDatasets() []string {
 	if repo == "" {
 		repo = "/repo"
 	}
-	return []string{
+	out := []string{
 		filepath.Join(repo, "internal/pkg/model/models/catchment/testdata/ValidModel.csv"),
 		filepath.Join(repo, "internal/pkg/model/models/catchment/testdata/TestingModel.csv"),
 	}
+	if p := permutedDataset(out[0]); p != "" {
+		out = append(out, p)
+	}
+	return out
+}
+
+// permutedDataset derives a legal but unusual dataset from a shipped one: the same tables with the data rows
+// of the Subcatchments and Actions tables in reverse order (nothing in crem's documentation requires sorted
+// rows; planning-unit order in outputs follows the Subcatchments table's row order).
+func permutedDataset(meta string) string {
+	if globalOut == "" {
+		return ""
+	}
+	dir := filepath.Join(globalOut, "permuted")
+	dst := filepath.Join(dir, "PermutedModel.csv")
+	if _, err := os.Stat(dst); err == nil {
+		return dst
+	}
+	if os.MkdirAll(dir, 0o755) != nil {
+		return ""
+	}
+	src := filepath.Dir(meta)
+	reverse := func(name string, rev bool) bool {
+		b, err := os.ReadFile(filepath.Join(src, name))
+		if err != nil {
+			return false
+		}
+		lines := strings.Split(strings.TrimRight(strings.ReplaceAll(string(b), "\r\n", "\n"), "\n"), "\n")
+		if rev && len(lines) > 2 {
+			body := lines[1:]
+			for i, j := 0, len(body)-1; i < j; i, j = i+1, j-1 {
+				body[i], body[j] = body[j], body[i]
+			}
+		}
+		return os.WriteFile(filepath.Join(dir, "Permuted"+strings.TrimPrefix(name, "Valid")), []byte(strings.Join(lines, "\n")+"\n"), 0o644) == nil
+	}
+	if !reverse("ValidSubcatchments.csv", true) || !reverse("ValidActions.csv", true) || !reverse("ValidGullies.csv", false) {
+		return ""
+	}
+	metaText := "TableName, FilePath\nSubcatchments, PermutedSubcatchments.csv\nGullies, PermutedGullies.csv\nActions, PermutedActions.csv\n"
+	if os.WriteFile(dst, []byte(metaText), 0o644) != nil {
+		return ""
+	}
+	return dst
 }
